@@ -26,12 +26,13 @@ CONSTANTS
                  \*   beyond that only the rotating length RotMl
     Rot,         \* rotation offset of the message-length choice (derived from the seed)
     Crafts,      \* TRUE: include the crafted Ed25519 constructions
-    LinkRing     \* linkage-tag behaviours over rings of size 1..LinkRing (0 = none)
+    LinkRing,    \* linkage-tag behaviours over rings of size 1..LinkRing (0 = none)
+    ReuseLen     \* object-reuse behaviours: every sequence of exactly ReuseLen calls on one signer object (0 = none)
 
 MsgLens == <<0, 1, 63, 64, 65, 4096>>
 
-VARIABLES sig, sig2, phase, out, hist
-vars == <<sig, sig2, phase, out, hist>>
+VARIABLES sig, sig2, ru, phase, out, hist
+vars == <<sig, sig2, ru, phase, out, hist>>
 
 IsEd(s)   == s \in {"eddsa", "schnorr-ed", "ring-ed"}
 IsRing(s) == s \in {"ring", "ring-ed"}
@@ -41,30 +42,39 @@ Entries(s) == IF s = "eddsa" THEN {"Verify", "VerifyWithChecks"}
               ELSE IF IsRing(s) THEN {"Verify"}
               ELSE {"Verify", "VerifyWithChecks", "Scheme"}
 
-(* Entry points that PROMISE the Ed25519 canonicity and small-order checks: *)
-(* the VerifyWithChecks functions of sign/eddsa and sign/schnorr (their doc  *)
-(* comment is the promise; plain Verify takes a decoded point and documents  *)
-(* only "valid signature").  Everywhere else those cases are "free".         *)
-Strict(s, e) == IsEd(s) /\ ~IsRing(s) /\ e = "VerifyWithChecks"
+(* Where the Ed25519 clause of the property ("on Ed25519 it also rejects non-canonical        *)
+(* encodings of R, S or the key and small-order R or keys, so that no second accepted encoding *)
+(* can be derived from a valid signature") is demanded: at EVERY verifier entry point of the   *)
+(* non-ring Ed25519 schemes -- eddsa.Verify / VerifyWithChecks, schnorr.Verify /               *)
+(* VerifyWithChecks / sign.Scheme.Verify on edwards25519.  The property speaks of              *)
+(* "verification" without excepting an entry point, and the pinned code rejects these cases    *)
+(* at all of them (Verify marshals the key and calls VerifyWithChecks).  Audit of "free":      *)
+(* it remains only where the property is silent AND nothing is promised: value-preserving      *)
+(* re-encodings (S+kL, trailing byte) on non-Ed25519 groups and in ring signatures.            *)
+Strict(s, e) == IsEd(s) /\ ~IsRing(s)
 
-Honest == [k |-> "honest", o |-> 0]
-(* crafted constructions (Ed25519, non-ring): the group equation holds, but a   *)
-(* component is of small order and/or not canonically encoded.  o = order of    *)
-(* the small-order component.                                                    *)
-CraftSet == [k : {"key-small"}, o : {1, 2, 4, 8}]
-       \cup [k : {"R-small"}, o : {1, 2, 4, 8}]
-       \cup [k : {"key-small-noncanon"}, o : {1, 4}]     \* y = p+1 (identity), y = p (order 4)
-       \cup [k : {"R-small-noncanon"}, o : {1, 4}]
-       \cup [k : {"key-signbit"}, o : {1, 2}]            \* x = 0 with the sign bit set
-       \cup [k : {"R-signbit"}, o : {1, 2}]
+Honest == [k |-> "honest", who |-> "none", j |-> 0, enc |-> "canon"]
+(* Crafted constructions (Ed25519, non-ring): the group equation S*B = R + h*A holds for the h the    *)
+(* verifier derives, but a component is one of the 8 small-order points j*T8 (j = 0 identity, 4 order *)
+(* 2, 2/6 order 4, odd order 8) in one of its 14 byte encodings: canonical; x = 0 with the sign bit   *)
+(* set (j = 0, 4); y + p (j = 0: p+1, j = 2, 6: p); y + p with the sign bit of x = 0 set (j = 0).     *)
+(* who = "key": keyless forgery (rB, r) under the small-order key (h*A = 0);                          *)
+(* who = "R": small-order R under a key xB + T' of mixed order (R + h*T' = 0);                         *)
+(* who = "both": small-order R and small-order key, S = 0.                                             *)
+SmallEncs == [j : 0..7, enc : {"canon"}] \cup [j : {0, 4}, enc : {"signbit"}]
+        \cup [j : {0, 2, 6}, enc : {"noncanon"}] \cup [j : {0}, enc : {"noncanon-signbit"}]
+CraftSet == {[k |-> "small", who |-> w, j |-> x.j, enc |-> x.enc] : w \in {"key", "R", "both"}, x \in SmallEncs}
 
-RSmall(c)     == c.k \in {"R-small", "R-small-noncanon", "R-signbit"}
-KSmall(c)     == c.k \in {"key-small", "key-small-noncanon", "key-signbit"}
-RNonCanon(c)  == c.k \in {"R-small-noncanon", "R-signbit"}
-KNonCanon(c)  == c.k \in {"key-small-noncanon", "key-signbit"}
+RSmall(c)     == c.k = "small" /\ c.who \in {"R", "both"}
+KSmall(c)     == c.k = "small" /\ c.who \in {"key", "both"}
+RNonCanon(c)  == c.k = "small" /\ c.who \in {"R", "both"} /\ c.enc # "canon"
+KNonCanon(c)  == c.k = "small" /\ c.who = "key" /\ c.enc # "canon"
 
 (* ---------------- manipulations of the signature bytes ---------------- *)
 Flips == {"flip-lo", "flip-mid", "flip-hi"}
+(* S + k*L for EVERY k with S + k*L < 2^256 (k = 1..15 for Ed25519; the replayer skips those that do not fit) *)
+PlusK == {"plus-2L", "plus-3L", "plus-4L", "plus-5L", "plus-6L", "plus-7L", "plus-8L", "plus-9L", "plus-10L",
+          "plus-11L", "plus-12L", "plus-13L", "plus-14L", "plus-15L"}
 
 FieldsOf(s) ==
     IF IsRing(s.scheme)
@@ -74,7 +84,7 @@ FieldsOf(s) ==
 
 MutsOf(s, fld) ==
     CASE fld.f = "R"   -> Flips \cup (IF IsEd(s.scheme) THEN {"add-T2", "add-T4", "add-T8"} ELSE {})
-      [] fld.f = "S"   -> Flips \cup {"plus-L"} \cup (IF IsRing(s.scheme) THEN {} ELSE {"plus-kL"})
+      [] fld.f = "S"   -> Flips \cup {"plus-L"} \cup (IF IsRing(s.scheme) THEN {} ELSE PlusK)
       [] fld.f = "C0"  -> Flips \cup {"plus-L"}
       [] fld.f = "Tag" -> Flips \cup (IF IsEd(s.scheme) THEN {"add-T8"} ELSE {})
       [] fld.f = "sig" -> {"trunc", "extend"}
@@ -83,14 +93,15 @@ TampersOf(s) == UNION {{[f |-> fld.f, i |-> fld.i, m |-> m] : m \in MutsOf(s, fl
 
 (* effect class of a manipulation: "sem" = the carried value changes (or no value *)
 (* is carried any more), "enc" = another byte string for the same value            *)
-Effect(t) == IF t.m \in {"plus-L", "plus-kL", "extend"} THEN "enc" ELSE "sem"
+Effect(t) == IF t.m \in {"plus-L", "extend"} \cup PlusK THEN "enc" ELSE "sem"
 
 (* canonical order in which the generator applies manipulations (sets, not sequences) *)
 FRank(t) == CASE t.f = "R" -> 0 [] t.f = "C0" -> 0 [] t.f = "S" -> 1 + t.i [] t.f = "Tag" -> 20 [] t.f = "sig" -> 21
-MRank(t) == CASE t.m = "flip-lo" -> 0 [] t.m = "flip-mid" -> 1 [] t.m = "flip-hi" -> 2 [] t.m = "add-T2" -> 3
-              [] t.m = "add-T4" -> 4 [] t.m = "add-T8" -> 5 [] t.m = "plus-L" -> 6 [] t.m = "plus-kL" -> 7
-              [] t.m = "trunc" -> 8 [] t.m = "extend" -> 9
-Rank(t) == FRank(t) * 10 + MRank(t)
+MutSeq == <<"flip-lo", "flip-mid", "flip-hi", "add-T2", "add-T4", "add-T8", "plus-L", "plus-2L", "plus-3L", "plus-4L",
+           "plus-5L", "plus-6L", "plus-7L", "plus-8L", "plus-9L", "plus-10L", "plus-11L", "plus-12L", "plus-13L",
+           "plus-14L", "plus-15L", "trunc", "extend">>
+MRank(t) == CHOOSE r \in 1..Len(MutSeq) : MutSeq[r] = t.m
+Rank(t) == FRank(t) * 30 + MRank(t)
 
 Compatible(s, t) == \A u \in s.tam : Rank(u) < Rank(t) /\ ~(u.m = "trunc" /\ t.m = "extend")
 
@@ -113,16 +124,15 @@ Verdict(s, e, a) ==
         enc     == \E t \in s.tam : Effect(t) = "enc"
         crafted == s.craft.k # "honest"
         strict  == Strict(s.scheme, e)
-    IN  IF crafted THEN (IF strict THEN "reject" ELSE "free")
+    IN  IF crafted THEN "reject"                       \* crafts exist only for the strict schemes
         ELSE IF sem \/ ~ArgsSame(a) THEN "reject"
         ELSE IF enc THEN (IF strict THEN "reject" ELSE "free")
         ELSE "accept"
 
 (* the cases the property leaves open, stated independently of Verdict *)
 FreeCase(s, e, a) ==
-    ~Strict(s.scheme, e) /\
-    (   s.craft.k # "honest"
-     \/ (ArgsSame(a) /\ s.tam # {} /\ \A t \in s.tam : Effect(t) = "enc"))
+    /\ ~Strict(s.scheme, e) /\ s.craft.k = "honest"
+    /\ ArgsSame(a) /\ s.tam # {} /\ \A t \in s.tam : Effect(t) = "enc"
 
 (* ---------------- state machine ---------------- *)
 RotMl(n, pos) == MsgLens[((n + pos + Rot) % Len(MsgLens)) + 1]
@@ -133,7 +143,9 @@ NewSig(sch, n, pos, sc, ml, c) ==
 NoSig  == NewSig("none", 1, 0, FALSE, 0, Honest)
 NoSig2 == [n |-> 0, pos |-> 0, samekey |-> TRUE, samescope |-> TRUE, samering |-> TRUE, samemsg |-> TRUE]
 
-Init == sig = NoSig /\ sig2 = NoSig2 /\ phase = "start" /\ out = "none" /\ hist = <<>>
+NoRu   == [kind |-> "none", cur |-> 0, lk |-> 0, lm |-> 0, n |-> 0]
+
+Init == sig = NoSig /\ sig2 = NoSig2 /\ ru = NoRu /\ phase = "start" /\ out = "none" /\ hist = <<>>
 
 (* what Sign itself must show: EdDSA is deterministic and byte-identical to RFC 8032 (crypto/ed25519) *)
 SignObs(sch) == IF sch = "eddsa" THEN "rfc8032-bytes" ELSE "any"
@@ -144,14 +156,14 @@ Sign(sch, n, pos, sc, ml) ==
     /\ phase' = "signed"
     /\ hist' = Append(hist, [act |-> "Sign", scheme |-> sch, n |-> n, pos |-> pos, scoped |-> sc, ml |-> ml,
                              obs |-> SignObs(sch)])
-    /\ UNCHANGED <<sig2, out>>
+    /\ UNCHANGED <<sig2, ru, out>>
 
 Craft(sch, c, ml) ==
     /\ phase = "start" /\ Crafts /\ IsEd(sch) /\ ~IsRing(sch) /\ MaxDist >= 1
     /\ sig' = NewSig(sch, 1, 0, FALSE, ml, c)
     /\ phase' = "signed"
-    /\ hist' = Append(hist, [act |-> "Craft", scheme |-> sch, kind |-> c.k, order |-> c.o, ml |-> ml])
-    /\ UNCHANGED <<sig2, out>>
+    /\ hist' = Append(hist, [act |-> "Craft", scheme |-> sch, who |-> c.who, j |-> c.j, enc |-> c.enc, ml |-> ml])
+    /\ UNCHANGED <<sig2, ru, out>>
 
 Dist(s) == Cardinality(s.tam) + (IF s.craft.k = "honest" THEN 0 ELSE 1)
 
@@ -162,7 +174,7 @@ Tamper(t) ==
     /\ t \notin sig.tam /\ Compatible(sig, t)
     /\ sig' = [sig EXCEPT !.tam = @ \cup {t}]
     /\ hist' = Append(hist, [act |-> "Tamper", f |-> t.f, i |-> t.i, m |-> t.m, effect |-> Effect(t)])
-    /\ UNCHANGED <<sig2, phase, out>>
+    /\ UNCHANGED <<sig2, ru, phase, out>>
 
 Verify(e, a) ==
     /\ phase = "signed"
@@ -172,7 +184,7 @@ Verify(e, a) ==
     /\ phase' = "verified"
     /\ hist' = Append(hist, [act |-> "Verify", entry |-> e, key |-> a.key, msg |-> a.msg, ring |-> a.ring,
                              scope |-> a.scope, exp |-> Verdict(sig, e, a)])
-    /\ UNCHANGED <<sig, sig2>>
+    /\ UNCHANGED <<sig, sig2, ru>>
 
 SignParams(sch) ==
     IF IsRing(sch) THEN {<<n, p, sc>> : n \in 1..MaxRing, p \in 0..(MaxRing - 1), sc \in BOOLEAN} \cap
@@ -196,7 +208,7 @@ Sign1(sch, n, pos) ==
     /\ phase' = "signed1"
     /\ hist' = Append(hist, [act |-> "Sign", scheme |-> sch, n |-> n, pos |-> pos, scoped |-> TRUE, ml |-> RotMl(n, pos),
                              obs |-> "any"])
-    /\ UNCHANGED <<sig2, out>>
+    /\ UNCHANGED <<sig2, ru, out>>
 
 TagEq(samekey, samescope) == samekey /\ samescope
 
@@ -209,7 +221,7 @@ Sign2(n, pos, samekey, samescope, samering, samemsg) ==
     /\ hist' = Append(hist, [act |-> "Sign2", n |-> n, pos |-> pos, samekey |-> samekey, samescope |-> samescope,
                              samering |-> samering, samemsg |-> samemsg,
                              exp |-> IF TagEq(samekey, samescope) THEN "equal" ELSE "different"])
-    /\ UNCHANGED <<sig>>
+    /\ UNCHANGED <<sig, ru>>
 
 LinkParams == {x \in (1..LinkRing) \X (0..(LinkRing - 1)) : x[2] < x[1]}
 
@@ -217,7 +229,54 @@ NextLink ==
     \/ (phase = "start" /\ \E sch \in Schemes \cap {"ring", "ring-ed"} : \E x \in LinkParams : Sign1(sch, x[1], x[2]))
     \/ (phase = "signed1" /\ \E x \in LinkParams, k, s, r, m \in BOOLEAN : Sign2(x[1], x[2], k, s, r, m))
 
-Next == NextVerify \/ (LinkRing > 0 /\ NextLink)
+(* ---------------- one signer object reused across keys and messages ---------------- *)
+(* ru = [kind, cur = key the object holds now (0 none), lk/lm = key and message of the last     *)
+(* signature it made, n = calls so far].  kind "eddsa": one eddsa.EdDSA value, re-keyed in     *)
+(* place with UnmarshalBinary (how = "unmarshal"), replaced by NewEdDSA (how = "new") or        *)
+(* round-tripped through its own MarshalBinary (RReload); kind "schnorr-scheme": one            *)
+(* schnorr sign.Scheme object used with several private keys.  Every signature must be the      *)
+(* one of the CURRENT key (EdDSA: byte-equal to crypto/ed25519 for that key's seed), whatever   *)
+(* the object signed, marshalled or held before.                                                 *)
+RKeys == {1, 2}
+RMsgs == {1, 2}
+RKinds == (IF "eddsa" \in Schemes THEN {"eddsa"} ELSE {}) \cup (IF "schnorr-ed" \in Schemes THEN {"schnorr-scheme"} ELSE {})
+
+RStep(rec, r2) ==
+    /\ phase = "reuse" /\ ru.n < ReuseLen
+    /\ ru' = [r2 EXCEPT !.n = ru.n + 1]
+    /\ hist' = Append(hist, rec)
+    /\ UNCHANGED <<sig, sig2, phase, out>>
+
+RStart(kind) ==
+    /\ phase = "start" /\ ReuseLen > 0
+    /\ ru' = [NoRu EXCEPT !.kind = kind]
+    /\ phase' = "reuse"
+    /\ hist' = <<[act |-> "RStart", kind |-> kind]>>
+    /\ UNCHANGED <<sig, sig2, out>>
+
+RLoad(k, how)  == RStep([act |-> "RLoad", key |-> k, how |-> how], [ru EXCEPT !.cur = k])
+RSign(m)       == ru.cur # 0 /\
+                  RStep([act |-> "RSign", msg |-> m, key |-> ru.cur,
+                         obs |-> IF ru.kind = "eddsa" THEN "rfc8032-bytes" ELSE "any"],
+                        [ru EXCEPT !.lk = ru.cur, !.lm = m])
+RMarshal       == ru.kind = "eddsa" /\ ru.cur # 0 /\ RStep([act |-> "RMarshal", key |-> ru.cur], ru)
+RReload        == ru.kind = "eddsa" /\ ru.cur # 0 /\ RStep([act |-> "RReload", key |-> ru.cur], ru)
+RVerdict(ks, ms) == IF ks /\ ms THEN "accept" ELSE "reject"
+RVerify(ks, ms) == ru.lk # 0 /\
+                   RStep([act |-> "RVerify", signedkey |-> ru.lk, signedmsg |-> ru.lm, samekey |-> ks, samemsg |-> ms,
+                          exp |-> RVerdict(ks, ms)], ru)
+
+NextReuse ==
+    \/ (phase = "start" /\ \E kind \in RKinds : RStart(kind))
+    \/ (phase = "reuse" /\ \E k \in RKeys, how \in (IF ru.kind = "eddsa" THEN {"unmarshal", "new"} ELSE {"switch"}) : RLoad(k, how))
+    \/ (phase = "reuse" /\ \E m \in RMsgs : RSign(m))
+    \/ (phase = "reuse" /\ (RMarshal \/ RReload))
+    \/ (phase = "reuse" /\ \E ks, ms \in BOOLEAN : RVerify(ks, ms))
+
+ReuseSound == (phase = "reuse") => (ru.cur \in {0} \cup RKeys /\ ru.lk \in {0} \cup RKeys /\ (ru.lk # 0 => ru.lm \in RMsgs)
+                                    /\ \A ks, ms \in BOOLEAN : (RVerdict(ks, ms) = "accept") <=> (ks /\ ms))
+
+Next == NextVerify \/ (LinkRing > 0 /\ NextLink) \/ NextReuse
 Spec == Init /\ [][Next]_vars
 
 (* ---------------- meta-properties of the verdict relation ---------------- *)
@@ -245,6 +304,7 @@ FreedomExplicit(s, e, a, v) ==
 StrictNoSecondEncoding(s, e, a, v) ==
     Strict(s.scheme, e) =>
         /\ v # "free"
+        /\ (s.craft.k # "honest" => v = "reject")
         /\ (v = "accept" =>
                ~RSmall(s.craft) /\ ~KSmall(s.craft) /\ ~RNonCanon(s.craft) /\ ~KNonCanon(s.craft)
                /\ \A t \in s.tam : Effect(t) # "enc")
@@ -270,11 +330,11 @@ TamperMonotone ==
 LinkSound == (phase = "linked") => ((out = "equal") <=> (sig2.samekey /\ sig2.samescope))
 
 TypeOK ==
-    /\ phase \in {"start", "signed", "signed1", "verified", "linked"}
+    /\ phase \in {"start", "signed", "signed1", "verified", "linked", "reuse"}
     /\ out \in {"none", "accept", "reject", "free", "equal", "different"}
     /\ sig.pos < sig.n /\ Cardinality(sig.tam) <= MaxDist
 
 (* ---------------- generator ---------------- *)
-View == <<sig, sig2, phase, out>>
-Emit == (phase \in {"verified", "linked"}) => PrintT(<<"TRACE", ToJson(hist)>>)
+View == <<sig, sig2, ru, phase, out>>
+Emit == (phase \in {"verified", "linked"} \/ (phase = "reuse" /\ ru.n = ReuseLen)) => PrintT(<<"TRACE", ToJson(hist)>>)
 =============================================================================
